@@ -1,6 +1,7 @@
 """C09 — Correlation estimates match their definition and are consistent."""
 import numpy as np
 import vlib
+from props._loopir import loopir_tie, TRUSTED_LINE
 from vlib import cz, czl, tolq
 
 LEVEL_TEXT = ("Coq theorems (abstract *-field / abstract ordered *-field, every length, lag and order) about the Gallina model of "
@@ -15,6 +16,8 @@ TRUSTED = ["Coq 8.16.1 kernel + vm_compute (no native_compute)",
            "scipy.signal.correlate and scipy.linalg.toeplitz are modelled by what they return (lag sums / Toeplitz layout), checked by the same correspondence",
            "rms(x)*rms(y) of a cross-correlation with norm='coeff' is an input of the model (square roots); for the autocorrelation it is the rational mean power",
            "Python harness (snapshot, generators, float->dyadic conversion)"]
+TRUSTED = TRUSTED + [TRUSTED_LINE]
+LEVEL_TEXT = LEVEL_TEXT + (" Additionally the hand-written model is tied to the source text: a deep-embedded loop-IR program is regenerated from the Python source of CORRELATION on every run (fail-closed ast translator) and evaluated by the Coq interpreter at the exact instance against the model with zero tolerance (same outcome, every entry equal).")
 UNPROVED = ["nothing of the statement is search-only; '|r[k]| <= r[0]' is proved in the square-root-free form |r[k]|^2 <= r[0]^2 and r[0] >= 0",
             "corrmtx with m >= N (the code returns differently shaped matrices) is outside the property's domain and outside the model"]
 ASSUMPTIONS = ["exact arithmetic in the theorems; rounding error of the binary64 code is not bounded by any theorem",
@@ -364,6 +367,7 @@ def run(ctx):
     from spectrum import CORRELATION, xcorr, corrmtx
     rng = ctx.rng
     ctx.check_theorems('Properties/C09.v')
+    loopir_tie(ctx, ['CORRELATION'])      # IR programs regenerated from the source vs the model: exact, zero tolerance
 
     # ================= correspondence: CORRELATION =================
     cases = []; meta = []
